@@ -69,6 +69,9 @@ func (g *gen) inAttrsBody(b *decgen.Body) bool {
 	return n != nil && n.Kind == decgen.KBlockAttrs
 }
 
+// reservedRootName: root variable names already given to a for_each because they equal the block's iterator
+var reservedRootName = map[*gen]map[string]bool{}
+
 func (g *gen) fresh(prefix string) string {
 	g.seq++
 	return fmt.Sprintf("%s%d", prefix, g.seq)
@@ -213,7 +216,7 @@ func (g *gen) dynamic(k *decgen.Block, scope []*iter, node *decgen.SNode) *ddyn 
 		}
 	}
 	it := &iter{salt: r.Intn(100000)}
-	d := &ddyn{typ: k.Type, it: it}
+	d := &ddyn{typ: k.Type, it: it, unknownType: node == nil}
 	if r.Chance(1, 2) {
 		d.custom = true
 		it.name = g.fresh("it")
@@ -247,6 +250,25 @@ func (g *gen) dynamic(k *decgen.Block, scope []*iter, node *decgen.SNode) *ddyn 
 	case r.Chance(1, 2):
 		it.rootVar = g.fresh("v")
 		g.count("for_each:root-variable")
+		// a caller-provided variable named like this block's own iterator: for_each does not see the iterator,
+		// so the name refers to the root variable there (and must be reported as needed), while inside the
+		// content it is shadowed
+		if r.Chance(1, 5) && !reservedRootName[g][it.name] {
+			clash := false
+			for _, s := range scope {
+				if s.name == it.name {
+					clash = true
+				}
+			}
+			if _, used := g.vars[it.name]; !clash && !used {
+				if reservedRootName[g] == nil {
+					reservedRootName[g] = map[string]bool{}
+				}
+				reservedRootName[g][it.name] = true
+				it.rootVar = it.name
+				g.count("for_each:root-variable-named-like-own-iterator")
+			}
+		}
 	default:
 		g.count("for_each:literal")
 	}
@@ -568,6 +590,13 @@ func (c *c18case) runAll(cx *lib.Ctx) {
 	for _, it := range c.g.iters {
 		iterNames[it.name] = true
 	}
+	// a root variable may carry the name of an iterator (a for_each does not see its own block's iterator):
+	// such a name is legitimately reported
+	for _, it := range c.g.iters {
+		if it.rootVar != "" {
+			delete(iterNames, it.rootVar)
+		}
+	}
 
 	if c.x.sawUnknown {
 		// unknown for_each: the result is still of the implied type, with the affected part unknown
@@ -630,7 +659,7 @@ func (c *c18case) runAll(cx *lib.Ctx) {
 	} else {
 		res.Count("outcome:values-compared")
 	}
-	if expanded.panicked == nil && written.panicked == nil && c.x.sawEmpty && nErrors(expanded.diags) > nErrors(written.diags) {
+	if expanded.panicked == nil && written.panicked == nil && (c.x.sawEmpty && nErrors(expanded.diags) > nErrors(written.diags) || c.x.sawEmptyUnknownType) {
 		// A dynamic block over an empty collection writes out as nothing, yet Expand still validates the
 		// dynamic block itself (block type known to the schema, label count, content block): the extra
 		// error is about the template, not about a difference in the blocks produced.
